@@ -278,6 +278,32 @@ V("c06-retry-keeps-redundant", "C06", TXN, "\t\tpanic(\"Trying to retry aggressi
 V("c06-region-error-nil", "C06", "txnkv/transaction/cleanup.go", "\t\terr = c.cleanupMutations(bo, batch.mutations)\n\t\treturn err", "\t\t_ = c.cleanupMutations\n\t\treturn nil", "C06.R6")
 V("c06-bare-go", "C06", TXN, "\twg := new(sync.WaitGroup)\n\twg.Add(1)\n\ttxn.store.WaitGroup().Add(1)\n\tgo func() {\n\t\tdefer txn.store.WaitGroup().Done()\n", "\twg := new(sync.WaitGroup)\n\twg.Add(1)\n\tgo func() {\n", "C06.R7")
 
+# ---------------------------------------------------------------- C17
+LT = "internal/latch/latch.go"
+SCH = "internal/latch/scheduler.go"
+V("c17-touch-after-unlock", "C17", LT, "\t\tlatch.Lock()\n\t\ttotal += latch.recycle(currentTS)\n\t\tlatch.Unlock()\n", "\t\tlatch.Lock()\n\t\tlatch.Unlock()\n\t\ttotal += latch.recycle(currentTS)\n", "C17.R1")
+V("c17-count-outside-lock", "C17", LT, "\tlatch := &latches.slots[slotID]\n\tlatch.Lock()\n\tdefer latch.Unlock()\n\n\t// Try to recycle to limit the memory usage.\n\tif latch.count >= latchListCount {\n\t\tlatch.recycle(lock.startTS)\n\t}\n",
+  "\tlatch := &latches.slots[slotID]\n\tneedRecycle := latch.count >= latchListCount\n\tlatch.Lock()\n\tdefer latch.Unlock()\n\n\t// Try to recycle to limit the memory usage.\n\tif needRecycle {\n\t\tlatch.recycle(lock.startTS)\n\t}\n", "C17.R1")
+V("c17-slots-before-sort", "C17", LT, "\tsort.Sort(bytesSlice(keys))\n\treturn &Lock{\n\t\tkeys:          keys,\n\t\trequiredSlots: latches.genSlotIDs(keys),", "\tslots := latches.genSlotIDs(keys)\n\tsort.Sort(bytesSlice(keys))\n\treturn &Lock{\n\t\tkeys:          keys,\n\t\trequiredSlots: slots,", "C17.R2")
+V("c17-locked-without-enqueue", "C17", LT, "\t// Push the current transaction into waitingQueue.\n\tlatch.waiting = append(latch.waiting, lock)\n\treturn acquireLocked", "\t// Push the current transaction into waitingQueue.\n\tif len(latch.waiting) < 1024 {\n\t\tlatch.waiting = append(latch.waiting, lock)\n\t}\n\treturn acquireLocked", "C17.R3")
+V("c17-wakeup-skipped", "C17", SCH, "\t\tif len(wakeupList) > 0 {\n\t\t\tscheduler.wakeup(wakeupList)\n\t\t}\n", "\t\tif len(wakeupList) > 1 {\n\t\t\tscheduler.wakeup(wakeupList)\n\t\t}\n", "C17.R3")
+V("c17-done-when-locked", "C17", SCH, "\t\tif scheduler.latches.acquire(lock) != acquireLocked {\n\t\t\tlock.wg.Done()\n\t\t}\n", "\t\tscheduler.latches.acquire(lock)\n\t\tlock.wg.Done()\n", "C17.R3")
+V("c17-stale-ge", "C17", LT, "\tif find.maxCommitTS > lock.startTS {\n\t\tlock.isStale = true\n\t\treturn acquireStale\n\t}", "\tif find.maxCommitTS >= lock.startTS {\n\t\tlock.isStale = true\n\t\treturn acquireStale\n\t}", "C17.R4")
+V("c17-handoff-never-stale", "C17", LT, "\t\tif find.maxCommitTS > nextLock.startTS {\n\t\t\tfind.value = nextLock\n\t\t\tnextLock.acquiredCount++\n\t\t\tnextLock.isStale = true\n\t\t}\n", "", "C17.R4")
+V("c17-n-rename", "C17", LT, "\tfind := findNode(latch.queue, key)\n\tif find == nil {\n\t\ttmp := &node{", "\tfind := findNode(latch.queue, key)\n\tnotFound := find == nil\n\tif notFound {\n\t\ttmp := &node{", "none")
+# ---------------------------------------------------------------- C18
+CB = "internal/client/client_batch.go"
+V("c18-reset-ids", "C18", CB, "\tb.directGroup.state = nil\n\n\tfor k := range b.forwardingGroups {", "\tb.directGroup.state = nil\n\tb.idAlloc = 0\n\n\tfor k := range b.forwardingGroups {", "C18.R1")
+V("c18-dispatch-first-response", "C18", CB, "\t\t\t\tentry.response(responses[i])\n", "\t\t\t\tentry.response(responses[0])\n", "C18.R2")
+V("c18-register-after-send", "C18", CB, "\t\tentry.requestID.Store(requestID)\n\t\tc.batched.Store(requestID, entry)\n", "\t\tentry.requestID.Store(requestID)\n\t\tdefer c.batched.Store(requestID, entry)\n", "C18.R2")
+V("c18-deliver-to-cancelled", "C18", CB, "\t\t\tif atomic.LoadInt32(&entry.canceled) == 0 {\n\t\t\t\t// Put the response only if the request is not canceled.\n\t\t\t\tentry.response(responses[i])\n\t\t\t} else {", "\t\t\tif atomic.LoadInt32(&entry.canceled) == 0 || entry.async() {\n\t\t\t\t// Put the response only if the request is not canceled.\n\t\t\t\tentry.response(responses[i])\n\t\t\t} else {", "C18.R3")
+V("c18-fail-without-delete", "C18", CB, "func (c *batchCommandsClient) failRequest(err error, requestID uint64, entry *batchCommandsEntry) {\n\tc.batched.Delete(requestID)\n", "func (c *batchCommandsClient) failRequest(err error, requestID uint64, entry *batchCommandsEntry) {\n", "C18.R3")
+V("c18-unbuffered-result", "C18", CB, "res:                 make(chan *tikvpb.BatchCommandsResponse_Response, 1),", "res:                 make(chan *tikvpb.BatchCommandsResponse_Response),", "C18.R3")
+V("c18-no-timer-arm", "C18", CB, "\t\treturn nil, errors.New(\"batchConn closed\")\n\tcase <-timer.C:\n\t\tatomic.StoreInt32(&entry.canceled, 1)\n\t\treturn nil, errors.WithMessage(context.DeadlineExceeded, formatBatchRequestTimeoutReason(entry, timeout, time.Now()))\n\t}", "\t\treturn nil, errors.New(\"batchConn closed\")\n\t}", "C18.R4")
+V("c18-timeout-not-cancelled", "C18", CB, "\tcase <-timer.C:\n\t\tatomic.StoreInt32(&entry.canceled, 1)\n\t\treturn nil, errors.WithMessage(context.DeadlineExceeded, formatBatchRequestTimeoutReason", "\tcase <-timer.C:\n\t\treturn nil, errors.WithMessage(context.DeadlineExceeded, formatBatchRequestTimeoutReason", "C18.R4")
+V("c18-fail-all-hosts", "C18", CB, "\t\tif entry.forwardedHost == forwardedHost {\n\t\t\tc.failRequest(err, id, entry)\n\t\t}\n", "\t\tc.failRequest(err, id, entry)\n", "C18.R5")
+V("c18-recreate-without-failing", "C18", CB, "\tc.failPendingRequests(err, streamClient.forwardedHost) // fail all pending requests.\n", "", "C18.R5")
+
 if __name__ == "__main__":
     out = os.path.join(os.path.dirname(os.path.abspath(__file__)), "variants.json")
     json.dump(VARS, open(out, "w"), indent=1)
